@@ -33,7 +33,7 @@ type Case struct {
 	Variant int       `json:"variant"`
 }
 
-var faults = []string{"{}", "{:r}", "}{", "{x}{y}", "{x:[}", "{a}/{a}", "{-}", "{x", "{x:(}"}
+var faults = []string{"{}", "{:r}", "}{", "{x}{y}", "{x:[}", "{a}/{a}", "{-}", "{x", "{x:(}", "{x:a)|(b}"}
 
 func rename(t *rapid.T, p *pat.Pattern) string {
 	// identical up to parameter names / the '-' flag
